@@ -162,10 +162,18 @@ def run(chk):
                     raise Inconclusive(f"grid samples of {k_} are not concrete-count vectors: {str(v)[:120]}")
                 v = to_at(v)
                 lo, hi = lift(K(f'{k_}_lo')), lift(K(f'{k_}_hi'))
-                want = sorted(str(lo + (hi - lo) * Fraction(i, m)) for i in range(m))
-                got = sorted(str(p_) for p_ in v.entries())
-                if tuple(v.axes) != (m, 1) or got != want:
-                    raise Violation(f"grid samples[{k_}]", f"axes {v.axes}: {got}", f"(m, 1): {want}")
+                if tuple(v.axes) != (m, 1):
+                    raise Violation(f"grid samples[{k_}]", f"axes {v.axes}", f"({m}, 1)")
+                ka, kb = ((lo.single_atom(), 1),), ((hi.single_atom(), 1),)
+                cs = set()
+                for p_ in v.entries():
+                    t = dict(lift(p_).t)
+                    a, b = t.pop(ka, 0), t.pop(kb, 0)
+                    if t or a + b != 1 or not (0 <= b <= 1):
+                        raise Violation(f"grid samples[{k_}]", f"sample {p_}", f"a point of the key's own range [{lo}, {hi}]")
+                    cs.add(b)
+                if len(cs) != m:
+                    raise Violation(f"grid samples[{k_}]", f"{len(cs)} distinct samples", f"{m} distinct grid points")
             return "each key: the regular grid of its own range"
         chk.run("C15.R2", f"{MOD}:DataGeneratorParameter.generate_data", {"method": "grid", "n": m}, go_grid, construct="grid per key")
 
